@@ -1136,6 +1136,10 @@ func (p *printVisitor) EnterSchemaDefinition(ref int) {
 }
 
 func (p *printVisitor) LeaveSchemaDefinition(ref int) {
+	if len(p.document.SchemaDefinitions[ref].RootOperationTypeDefinitions.Refs) == 0 {
+		// the opening brace is written by the first root operation type definition
+		p.write(literal.LBRACE)
+	}
 	if p.indent != nil {
 		p.write(literal.LINETERMINATOR)
 	}
@@ -1158,10 +1162,16 @@ func (p *printVisitor) EnterSchemaExtension(ref int) {
 }
 
 func (p *printVisitor) LeaveSchemaExtension(ref int) {
+	hasRootOperationTypes := len(p.document.SchemaExtensions[ref].SchemaDefinition.RootOperationTypeDefinitions.Refs) > 0
+	// without directives the (empty) list is what makes the extension parseable
+	needsEmptyList := !hasRootOperationTypes && !p.document.SchemaExtensions[ref].HasDirectives
+	if needsEmptyList {
+		p.write(literal.LBRACE)
+	}
 	if p.indent != nil {
 		p.write(literal.LINETERMINATOR)
 	}
-	if len(p.document.SchemaExtensions[ref].SchemaDefinition.RootOperationTypeDefinitions.Refs) > 0 {
+	if hasRootOperationTypes || needsEmptyList {
 		p.write(literal.RBRACE)
 	}
 	if !p.document.NodeIsLastRootNode(ast.Node{Kind: ast.NodeKindSchemaExtension, Ref: ref}) {
